@@ -159,6 +159,20 @@ func runC09(c *Ctx) {
 		resp := try(p, rawOpen(id+1, path, pf, 4, blk), pf&(2|8|16) != 0, "attrs")
 		closeIfHandle(resp)
 	}
+	// OPEN that asks for reading only (or for nothing, or exclusively) but carries attributes: every attribute-flag subset on
+	// every target, with values that differ from what is there - whatever the server makes of the attribute block, a
+	// read-only server changes nothing (the tree snapshot includes mode, size, times and owner)
+	for _, t := range targets {
+		for _, pf := range []uint32{1, 0, 0x21, 5} {
+			for fl := uint32(1); fl < 16; fl++ {
+				path := filepath.Join(root, t)
+				blk := attrBlock(fl, 3, 11, 12, 0o100600, 1000, 2000)
+				p := &sftp.VerifPacket{Kind: "open", ID: id + 1, S1: path, N1: uint64(pf), N2: uint64(fl), HasRaw: true, Raw: blk}
+				resp := try(p, rawOpen(id+1, path, pf, fl, blk), false, "attrs-t="+t)
+				closeIfHandle(resp)
+			}
+		}
+	}
 	// SETSTAT with all 16 flag subsets, on file and dir
 	for _, t := range []string{"file", "dir", "missing"} {
 		for fl := uint32(0); fl < 16; fl++ {
